@@ -14,6 +14,8 @@
 #include <functional>
 #include <unistd.h>
 #include <fcntl.h>
+#include <sys/wait.h>
+#include <deque>
 
 namespace vf {
 
@@ -170,12 +172,18 @@ struct Worker {
     int failures = 0;
     // current case, kept in a static buffer so a crash handler can dump it without allocating
     char cur[1 << 16]; size_t cur_len = 0;
+    bool in_child = false;                 // confirmation child: never writes files
+    std::deque<std::string> history;       // serialised cases executed so far in this process (most recent last, bounded)
+    bool stop_after_history_failure = false;
+    int zy_to = -1, zy_from = -1;          // pipes to the pristine confirmation process
+    char crash_path[512] = {0}; char crash_tail[256] = {0};
     std::string base() const { return args.outdir + "/" + args.id + "-" + args.variant + "-w" + std::to_string(args.worker); }
 };
 inline Worker& W() { static Worker w; return w; }
 
 inline void set_current(const Case& c) {
     std::string s = c.str(); Worker& w = W();
+    if (!w.in_child) { w.history.push_back(s); if (w.history.size() > 65) w.history.pop_front(); }
     w.cur_len = s.size() < sizeof(w.cur) ? s.size() : sizeof(w.cur);
     memcpy(w.cur, s.data(), w.cur_len);
 }
@@ -184,22 +192,24 @@ inline void set_current(const Case& c) {
 // same file is overwritten by every failing execution while shrinking, so what remains is
 // the minimal counterexample.
 inline void record_failure(const Case& c, const std::string& msg, const std::string& kind = "fail") {
-    Worker& w = W(); w.failures++;
+    Worker& w = W(); if (w.in_child) return; w.failures++;
     Case out = c; out.set("property", w.args.id); out.set("variant", w.args.variant); out.set("message", msg);
     write_file(w.base() + "." + kind + ".case", out.str());
 }
 
 extern "C" void __sanitizer_set_death_callback(void (*)(void)) __attribute__((weak));
 inline void crash_dump() {
+    // runs inside a sanitizer's death callback or a signal handler: no allocation, no stdio (ThreadSanitizer holds its
+    // report lock here and intercepted malloc/fopen can deadlock) — only open/write on paths prepared in advance
     static volatile int once = 0; if (once) return; once = 1;
-    Worker& w = W();
-    std::string p = w.base() + ".crash.case";
-    int fd = open(p.c_str(), O_WRONLY | O_CREAT | O_TRUNC, 0644);
-    if (fd >= 0) {
-        ssize_t r = write(fd, w.cur, w.cur_len); (void)r;
-        std::string tail = "property=" + w.args.id + "\nvariant=" + w.args.variant + "\nmessage=crash (sanitizer report, abort or signal) while executing this case\n";
-        r = write(fd, tail.data(), tail.size()); (void)r; close(fd);
-    }
+    Worker& w = W(); if (w.in_child) return;
+    int fd = open(w.crash_path, O_WRONLY | O_CREAT | O_TRUNC, 0644);
+    if (fd >= 0) { ssize_t r = write(fd, w.cur, w.cur_len); (void)r; r = write(fd, w.crash_tail, strlen(w.crash_tail)); (void)r; close(fd); }
+#if defined(__has_feature)
+#if __has_feature(thread_sanitizer)
+    return;
+#endif
+#endif
     w.ev.write(w.base());
 }
 inline void on_signal(int sig) { crash_dump(); signal(sig, SIG_DFL); raise(sig); }
@@ -207,6 +217,75 @@ inline void install_crash_handlers() {
     if (__sanitizer_set_death_callback) __sanitizer_set_death_callback(crash_dump);
     signal(SIGABRT, on_signal); signal(SIGSEGV, on_signal); signal(SIGBUS, on_signal); signal(SIGFPE, on_signal); signal(SIGILL, on_signal);
 }
+
+// ---------------------------------------------------------------- pristine confirmation process
+// A failure observed in a long-lived worker may depend on what earlier cases left behind in the library (a static
+// cache, a mask that was not reset).  Before a failure is accepted it is re-executed in a child forked from a process
+// that has run no case at all: (1) the case alone; (2) if that passes, the case preceded by the last 1, 2, 4 ... 64
+// cases of this worker, then minimised.  What is reported is therefore always a self-contained, reproducible replay
+// file: one case, or a short history of cases separated by "---" lines.
+inline bool write_all(int fd, const void* p, size_t n) { const char* b = (const char*)p; while (n) { ssize_t r = write(fd, b, n); if (r <= 0) return false; b += r; n -= (size_t)r; } return true; }
+inline bool read_all(int fd, void* p, size_t n) { char* b = (char*)p; while (n) { ssize_t r = read(fd, b, n); if (r <= 0) return false; b += r; n -= (size_t)r; } return true; }
+inline bool send_blob(int fd, const std::string& s) { uint64_t n = s.size(); return write_all(fd, &n, 8) && write_all(fd, s.data(), s.size()); }
+inline bool recv_blob(int fd, std::string& s) { uint64_t n; if (!read_all(fd, &n, 8) || n > (1u << 28)) return false; s.resize(n); return read_all(fd, &s[0], n); }
+
+inline std::vector<std::string> split_cases(const std::string& text) {
+    std::vector<std::string> v; std::string cur; size_t pos = 0;
+    while (pos <= text.size()) { size_t e = text.find('\n', pos); if (e == std::string::npos) e = text.size(); std::string line = text.substr(pos, e - pos); pos = e + 1;
+        if (line == "---") { v.push_back(cur); cur.clear(); } else if (!line.empty()) { cur += line; cur += '\n'; } if (e == text.size()) break; }
+    if (!cur.empty()) v.push_back(cur); return v;
+}
+// run a history (one or more serialised cases) through the oracle; the verdict is that of the LAST case, earlier ones only set the scene
+inline std::string run_history(const std::function<std::string(const Case&)>& oracle, const std::string& text) {
+    std::vector<std::string> cs = split_cases(text); std::string m;
+    for (size_t i = 0; i < cs.size(); i++) { Case c = Case::parse(cs[i]); set_current(c); m = oracle(c); if (!m.empty() && i + 1 < cs.size()) return "(case " + std::to_string(i + 1) + " of " + std::to_string(cs.size()) + ") " + m; }
+    return m;
+}
+inline void zygote_start(const std::function<std::string(const Case&)>& oracle) {
+    Worker& w = W(); int a[2], b[2]; if (pipe(a) || pipe(b)) return;
+    fflush(stdout); fflush(stderr);
+    pid_t z = fork(); if (z < 0) return;
+    if (z == 0) { // the pristine process: has run nothing; forks one grandchild per request
+        close(a[1]); close(b[0]); w.in_child = true; signal(SIGPIPE, SIG_IGN);
+        for (;;) {
+            std::string req; if (!recv_blob(a[0], req)) _exit(0);
+            int c[2]; if (pipe(c)) _exit(0);
+            pid_t g = fork();
+            if (g == 0) { close(c[0]); int dn = open("/dev/null", O_WRONLY); if (dn >= 0) { dup2(dn, 1); dup2(dn, 2); } std::string m = run_history(oracle, req); send_blob(c[1], m); _exit(0); }
+            close(c[1]); std::string res; bool ok = recv_blob(c[0], res); close(c[0]); int st = 0; waitpid(g, &st, 0);
+            if (!ok) res = "crash (sanitizer report, abort or signal) while executing this case";
+            if (!send_blob(b[1], res)) _exit(0);
+        }
+    }
+    close(a[0]); close(b[1]); w.zy_to = a[1]; w.zy_from = b[0];
+}
+inline bool zygote_run(const std::string& history, std::string* msg) { // true if the (last case of the) history fails in a pristine process
+    Worker& w = W(); if (w.zy_to < 0) { *msg = "?"; return true; }
+    std::string res; if (!send_blob(w.zy_to, history) || !recv_blob(w.zy_from, res)) { w.zy_to = -1; *msg = "?"; return true; }
+    *msg = res; return !res.empty();
+}
+// Decide what an in-process failure of case c is.  Returns 1 = standalone failure (proceed as usual), 2 = fails only after a
+// history (a multi-case replay file was written; stop), 0 = not reproducible in a pristine process (counted, treated as a pass).
+inline int classify_failure(const Case& c, const std::string& msg) {
+    Worker& w = W(); if (w.in_child || w.zy_to < 0) return 1;
+    std::string m; if (zygote_run(c.str(), &m)) return 1;
+    std::vector<std::string> hist(w.history.begin(), w.history.end()); if (!hist.empty() && hist.back() == c.str()) hist.pop_back();
+    for (size_t k = 1; k <= hist.size() * 2 && k <= 64; k *= 2) {
+        size_t kk = k < hist.size() ? k : hist.size(); std::vector<std::string> pre(hist.end() - (long)kk, hist.end());
+        auto join = [&](const std::vector<std::string>& p) { std::string t; for (auto& x : p) { t += x; t += "---\n"; } t += c.str(); return t; };
+        if (zygote_run(join(pre), &m)) {
+            for (size_t i = 0; i < pre.size();) { std::vector<std::string> q = pre; q.erase(q.begin() + (long)i); std::string m2; if (zygote_run(join(q), &m2)) { pre = q; m = m2; } else i++; }   // greedy minimisation
+            std::string text = join(pre) + "property=" + w.args.id + "\nvariant=" + w.args.variant + "\nmessage=" + m + " [only after the " + std::to_string(pre.size()) + " preceding case(s) of this file: the library keeps state between calls]\n";
+            write_file(w.base() + ".fail.case", text); w.failures++; w.stop_after_history_failure = true; return 2;
+        }
+        if (kk == hist.size()) break;
+    }
+    w.ev.count("failed-only-in-the-long-lived-worker(not reproducible from a pristine process; not reported)"); w.ev.note("not reproducible from a pristine process: " + msg.substr(0, 200));
+    return 0;
+}
+
+// for enumeration loops: returns true if the run should stop (a failure was recorded)
+inline bool enum_fail(const Case& c, const std::string& msg) { int k = classify_failure(c, msg); if (k == 0) return false; if (k == 1) record_failure(c, msg); return true; }
 
 // Each property binary defines these two.
 //   run():    generate cases, apply oracle, fill W().ev, call record_failure on violations
@@ -216,15 +295,17 @@ struct Hooks { std::function<void()> run; std::function<std::string(const Case&)
 inline int worker_main(int argc, char** argv, const char* id, const Hooks& h) {
     Worker& w = W(); w.args = parse_args(argc, argv); w.args.id = id;
     setvbuf(stdout, nullptr, _IOLBF, 0);
+    snprintf(w.crash_path, sizeof w.crash_path, "%s.crash.case", w.base().c_str());
+    snprintf(w.crash_tail, sizeof w.crash_tail, "property=%s\nvariant=%s\nmessage=crash (sanitizer report, abort or signal) while executing this case\n", w.args.id.c_str(), w.args.variant.c_str());
     install_crash_handlers();
     if (!w.args.replay.empty()) {
-        Case c = Case::parse(read_file(w.args.replay));
-        if (c.kv.empty()) { fprintf(stderr, "cannot read replay file %s\n", w.args.replay.c_str()); return 2; }
-        set_current(c);
-        std::string m = h.replay(c);
+        std::string text = read_file(w.args.replay);
+        if (Case::parse(text).kv.empty()) { fprintf(stderr, "cannot read replay file %s\n", w.args.replay.c_str()); return 2; }
+        std::string m = run_history(h.replay, text);
         if (m.empty()) { printf("REPLAY-OK %s\n", w.args.replay.c_str()); return 0; }
         printf("REPLAY-FAIL %s: %s\n", w.args.replay.c_str(), m.c_str()); return 3;
     }
+    if (!getenv("VERIF_NO_ZYGOTE")) zygote_start(h.replay);
     h.run();
     w.ev.write(w.base());
     return w.failures ? 3 : 0;
